@@ -349,6 +349,8 @@ builtin_exec(spif_charptr_t param)
     if (maxlen > CONFIG_BUFF) {
         libast_print_error("Parse error in file %s, line %lu:  Cannot execute command, line too long\n",
                            file_peek_path(), file_peek_line());
+        close(fd);
+        remove((char *) OutFile);
         FREE(Command);
         return ((spif_charptr_t) NULL);
     }
@@ -370,9 +372,13 @@ builtin_exec(spif_charptr_t param)
         } else {
             libast_print_warning("Command at line %lu of file %s returned no output.\n",
                                  file_peek_line(), file_peek_path());
+            fclose(fp);
+            remove((char *) OutFile);
         }
     } else {
         libast_print_warning("Output file %s could not be created.  (line %lu of file %s)\n", NONULL(OutFile), file_peek_line(), file_peek_path());
+        close(fd);
+        remove((char *) OutFile);
     }
     FREE(Command);
 
